@@ -7,6 +7,7 @@
 //    intact, and destruction must balance (nothing destroyed that was never constructed, nothing left).
 #pragma once
 #include "c02_vector.hpp"
+#include "listlike.hpp"
 #include <cmath>
 #include <cstring>
 #include <limits>
@@ -277,12 +278,195 @@ namespace c02
         tc.run(op, s, s + spare, a, k);
     }
 
+    // ---------------------------------------------------------------------------- non-relocatable elements
+    // An element that stores its own address (as a short-string buffer pointer or an intrusive node does): it may
+    // be copied, moved and assigned, never carried to another place as raw bytes.
+    struct SelfRef
+    {
+        int v;
+        const SelfRef *self;
+        static long &broken()
+        {
+            static long n = 0;
+            return n;
+        }
+        SelfRef(int x = 0) : v(x), self(this) {}
+        SelfRef(const SelfRef &o) : v(o.value()), self(this) {}
+        SelfRef(SelfRef &&o) : v(o.value()), self(this) {}
+        SelfRef &operator=(const SelfRef &o)
+        {
+            v = o.value();
+            (void)value();
+            return *this;
+        }
+        ~SelfRef()
+        {
+            if (self != this)
+                broken()++;
+            self = nullptr;
+        }
+        int value() const
+        {
+            if (self != this)
+                broken()++;
+            return v;
+        }
+    };
+    // grow one element at a time (the block has to move at some point), then one operation; V is the vector type
+    template <class V, bool HasEraseRange> void selfref_body(const string &variant)
+    {
+        using CI = typename V::const_iterator;
+        const int NMAX = 40, NOPS = 8;
+        int c = mc::choose(NMAX * 2 * NOPS);
+        int op = c % NOPS, grow = c / NOPS % 2, n = 1 + c / NOPS / 2;
+        static const char *on[] = {"none", "insert", "emplace", "erase_one", "erase_range", "resize_reserve", "copy", "move"};
+        mc::describe("%s: %d self-referential elements through %s, then %s", variant.c_str(), n, grow ? "emplace_back" : "push_back", on[op]);
+        mc::nontrivial();
+        SelfRef::broken() = 0;
+        string o = grow ? "emplace_back" : "push_back";
+        mc::crash_context("C02.%s.%s.crash", variant.c_str(), o.c_str());
+        auto verify = [&](const string &op, V &v, const std::vector<int> &m) {
+            bool ok = v.size() == m.size();
+            for (size_t i = 0; ok && i < m.size(); i++)
+                if (v[i].value() != m[i])
+                    ok = false;
+            if (SelfRef::broken())
+            {
+                mc::violation(mc::fmt("C02.%s.%s.element_relocated_bytewise", variant.c_str(), op.c_str()),
+                              "%ld element(s) live at an address they were not constructed at (size %zu): they were carried over as raw bytes", SelfRef::broken(), m.size());
+                return false;
+            }
+            if (!ok)
+            {
+                mc::violation(mc::fmt("C02.%s.%s.contents", variant.c_str(), op.c_str()), "contents differ from std::vector (size %zu vs %zu)", (size_t)v.size(), m.size());
+                return false;
+            }
+            return true;
+        };
+        {
+            V v;
+            std::vector<int> m;
+            for (int i = 0; i < n; i++)
+            {
+                if (grow)
+                    v.emplace_back(i + 1);
+                else
+                    v.push_back(SelfRef(i + 1));
+                m.push_back(i + 1);
+                if (!verify(o, v, m))
+                    return;
+            }
+            o = on[op];
+            mc::crash_context("C02.%s.%s.crash", variant.c_str(), o.c_str());
+            size_t mid = m.size() / 2;
+            switch (op)
+            {
+            case 1:
+                v.insert((CI)(v.data() + mid), SelfRef(77));
+                m.insert(m.begin() + mid, 77);
+                break;
+            case 2:
+                v.emplace((CI)(v.data() + mid), 78);
+                m.insert(m.begin() + mid, 78);
+                break;
+            case 3:
+                v.erase(v.begin() + mid);
+                m.erase(m.begin() + mid);
+                break;
+            case 4:
+                if constexpr (HasEraseRange)
+                {
+                    v.erase(v.begin(), v.begin() + mid);
+                    m.erase(m.begin(), m.begin() + mid);
+                }
+                break;
+            case 5:
+                v.reserve(2 * n + 3);
+                v.resize(n + 5);
+                m.resize(n + 5);
+                break;
+            case 6:
+            {
+                V w(v), x;
+                x = v;
+                if (!verify(o, w, m) || !verify(o, x, m))
+                    return;
+                break;
+            }
+            case 7:
+            {
+                V w(std::move(v));
+                if (!verify(o, w, m))
+                    return;
+                v = std::move(w);
+                break;
+            }
+            }
+            if (!verify(o, v, m))
+                return;
+            o += ".then_destructor";
+        }
+        if (SelfRef::broken())
+            mc::violation(mc::fmt("C02.%s.destructor.element_relocated_bytewise", variant.c_str()), "%ld element(s) were destroyed at an address they were not constructed at", SelfRef::broken());
+        mc::outcome(mc::fmt("%d", op));
+    }
+
+    // ------------------------------------------------------------------ emplace with several arguments
+    template <class V, class VS> void emplace_multiarg_body(const string &variant)
+    {
+        using CI = typename V::const_iterator;
+        int c = mc::choose(4 * 3 * 3 * 2);
+        int count = c % 4, v = 5 + c / 4 % 3, pre = c / 12 % 3, where = c / 36; // where: 0 emplace_back, 1 emplace(begin)
+        mc::describe("%s: %s(%d, %d) / (%d, 'x') after %d element(s)", variant.c_str(), where ? "emplace(begin," : "emplace_back(", count, v, count, pre);
+        mc::nontrivial();
+        mc::crash_context("C02.%s.emplace_multiarg.crash", variant.c_str());
+        {
+            V vec;
+            for (int i = 0; i < pre; i++)
+                vec.emplace_back(1, i);
+            size_t at = where ? 0 : (size_t)pre;
+            if (where)
+                vec.emplace((CI)vec.data(), count, v);
+            else
+                vec.emplace_back(count, v);
+            ll::ListLike want(count, v);
+            if (vec.size() != (size_t)pre + 1 || !(vec[at] == want))
+            {
+                mc::violation(mc::fmt("C02.%s.emplace_multiarg.contents", variant.c_str()), "%s(%d, %d) stored %s, T(%d, %d) is %s", where ? "emplace" : "emplace_back", count, v,
+                              vec.size() > at ? vec[at].str().c_str() : "nothing", count, v, want.str().c_str());
+                return;
+            }
+        }
+        {
+            VS vec;
+            for (int i = 0; i < pre; i++)
+                vec.emplace_back("p");
+            size_t at = where ? 0 : (size_t)pre;
+            if (where)
+                vec.emplace((typename VS::const_iterator)vec.data(), (size_t)count, 'x');
+            else
+                vec.emplace_back((size_t)count, 'x');
+            std::string want((size_t)count, 'x');
+            if (vec.size() != (size_t)pre + 1 || vec[at] != want)
+            {
+                mc::violation(mc::fmt("C02.%s.emplace_multiarg.contents", variant.c_str()), "%s(%d, 'x') on a vector of std::string stored a string of length %zu, std::string(%d, 'x') has %zu",
+                              where ? "emplace" : "emplace_back", count, vec.size() > at ? vec[at].size() : (size_t)0, count, want.size());
+                return;
+            }
+        }
+        mc::outcome(mc::fmt("%d/%d", count, where));
+    }
+
     template <class Tr> void register_extra()
     {
         string n = Tr::name;
         mc::add_check("extra_" + n + "_double_compare", [n] { float_compare_body<Tr, double>(n + "_double"); });
         mc::add_check("extra_" + n + "_float_compare", [n] { float_compare_body<Tr, float>(n + "_float"); });
         mc::add_check("extra_" + n + "_nonreflexive_compare", [n] { float_compare_body<Tr, Odd>(n + "_nonreflexive"); });
+        // self-referential elements: with the tracking allocator and with the container's own default allocator
+        mc::add_check("extra_" + n + "_selfref", [n] { selfref_body<typename Tr::template vec<SelfRef>, Tr::has_erase_range>(n + "_selfref"); });
+        mc::add_check("extra_" + n + "_selfref_default_allocator", [n] { selfref_body<typename Tr::template vec_default<SelfRef>, Tr::has_erase_range>(n + "_selfref_default_allocator"); });
+        mc::add_check("extra_" + n + "_emplace_multiarg", [n] { emplace_multiarg_body<typename Tr::template vec<ll::ListLike>, typename Tr::template vec<std::string>>(n); });
         mc::add_check("extra_" + n + "_throwing_elements", [n] { throwing_body<Tr>(n + "_tracked"); });
     }
 }
